@@ -227,6 +227,23 @@ pub fn native_floats(cfg: &cgv_core::fw::RunCfg, extra: &mut cgv_core::fw::Extra
             acc.check(&format!("{tag} (q*v)[{i}] vs v + 2 qv x (qv x v + s v)"), g(r[i]), want, 1024.0 * eps * cond, inputs);
         }
     }
+    // q * invert(q) = invert(q) * q = one() for tiny and huge q: integer quaternions times 2^k,
+    // k down to where |q|^2 = m * 2^(2k) is still exactly representable (subnormal), up to where it
+    // is still finite.  Everything is exact except the final divisions, allowance 128 eps.
+    fn inverse<T: BaseFloat>(tag: &str, qi: [i64; 4], k: i32, acc: &mut Acc, inputs: &dyn Fn() -> serde_json::Value) {
+        let eps = T::epsilon().to_f64().unwrap();
+        let f = |x: f64| T::from(x).unwrap();
+        let g = |x: T| x.to_f64().unwrap();
+        let s = if k >= -1022 { f64::from_bits(((k + 1023) as u64) << 52) } else { 0.0 };
+        let q = Quaternion::new(f(qi[0] as f64 * s), f(qi[1] as f64 * s), f(qi[2] as f64 * s), f(qi[3] as f64 * s));
+        let inv = Rotation::invert(&q);
+        for (name, p) in [("q * invert(q)", q * inv), ("invert(q) * q", inv * q)] {
+            let got = [g(p.s), g(p.v.x), g(p.v.y), g(p.v.z)];
+            for (c, x) in got.iter().enumerate() {
+                acc.check(&format!("{tag} {name} component {c} at scale 2^{k}"), *x, if c == 0 { 1.0 } else { 0.0 }, 128.0 * eps, inputs);
+            }
+        }
+    }
     let n = if cfg.tier == Tier::Quick { 3000 } else { 200_000 };
     let mut acc = Acc::new("c04_float_quaternions");
     for i in 0..n {
@@ -240,11 +257,17 @@ pub fn native_floats(cfg: &cgv_core::fw::RunCfg, extra: &mut cgv_core::fw::Extra
         let q = [entry(&mut rng), entry(&mut rng), entry(&mut rng), entry(&mut rng)];
         let v = [entry(&mut rng), entry(&mut rng), entry(&mut rng)];
         acc.case(if wide { "components m*2^e, e in [-20,20]" } else { "components of similar size" });
-        let inputs = || json!({"p_sxyz": p, "q_sxyz": q, "v": v, "index": i});
+        let qi = [rng.range(-15, 15), rng.range(1, 15), rng.range(-15, 15), rng.range(-15, 15)];
+        let low = rng.chance(1, 3);
+        let k64 = if low { rng.range(-535, -505) } else { rng.range(-535, 500) } as i32;
+        let k32 = if low { rng.range(-74, -62) } else { rng.range(-74, 58) } as i32;
+        let inputs = || json!({"p_sxyz": p, "q_sxyz": q, "v": v, "integer_quaternion_sxyz": qi, "scale_log2_f64": k64, "scale_log2_f32": k32, "index": i});
         match cgv_core::fw::catch(|| {
             let mut local = Acc::new("c04_float_quaternions");
             run::<f64>("f64", p, q, v, &mut local, &inputs);
             run::<f32>("f32", p, q, v, &mut local, &inputs);
+            inverse::<f64>("f64", qi, k64, &mut local, &inputs);
+            inverse::<f32>("f32", qi, k32, &mut local, &inputs);
             local
         }) {
             Ok(l) => {
